@@ -205,7 +205,7 @@ func runCheck(p *Property, tier string) int {
 		}
 		code = 2
 	}
-	exhaustive := c.Exhaust && !a.Cut && a.Horizons == 0
+	exhaustive := c.Exhaust && !a.Cut && a.Horizons == 0 && a.Nondet == 0
 	// evidence
 	cov := map[string]interface{}{
 		"states":                        a.States,
@@ -221,6 +221,7 @@ func runCheck(p *Property, tier string) int {
 		"determinism_rechecks":          a.Replays,
 		"state_cache_hits":              a.CacheHits,
 		"noop_excursions_pruned":        a.Pruned,
+		"engine_nondeterminism_events":  a.Nondet,
 		"horizon_hits":                  a.Horizons,
 		"budget_cut":                    a.Cut,
 		"max_decision_depth":            a.MaxDepth,
